@@ -78,6 +78,22 @@ def dibs_case(rng, family):
     if not all(sl.tree_ok(t, sep) for t in train_trees):
         return None
     test_trees = train_trees if rng.random() < 0.5 else [[rng.choice(lexi) for _ in range(rng.randint(1, 4))] for _ in range(rng.randint(1, 5))]
+    r = rng.random()
+    if r < 0.3:
+        # test words never seen in training, over the whole phone family (units and diphones unseen in training),
+        # mixed with known words at either side
+        test_trees = [list(t) for t in test_trees]
+        for _ in range(rng.randint(1, 3)):
+            extra = sl.rand_tree(rng, sl.PHONES[fam], nwords=1, maxsyll=2, maxphones=3)[0]
+            utt = [rng.choice(lexi) for _ in range(rng.randint(0, 2))]
+            utt.insert(rng.randint(0, len(utt)), extra)
+            test_trees.insert(rng.randint(0, len(test_trees)), utt)
+        family += '-unseen'
+    elif r < 0.4:
+        # a test text none of whose units occurs in the training text
+        other = [p for p in sl.PHONES[fam] if p not in phones] or ['zz', 'q']
+        test_trees = [sl.rand_tree(rng, other, maxsyll=2, maxphones=2) for _ in range(rng.randint(1, 3))]
+        family += '-disjoint'
     test_units = [[u for w in t for u in c10.units_of_word(w, level)] for t in test_trees]
     kind = rng.choice(c10.KINDS)
     thr = Fraction(rng.randint(0, 8), 8)
@@ -151,11 +167,33 @@ def baseline_case(text_units, p, seed, family, raw_text=None):
                 nontrivial=lambda m: m[0] == 'raise' or any(' ' in u for u in m[1][0]))
 
 
+ORACLE_SEPS = [(' ', ';esyll', ';eword'), ('_', ';esyll', ';eword'), ('_', None, ';eword'), (' ', None, ';eword'),
+               (None, ';esyll', ';eword'), ('_', '=', '@@'), ('/', '=', '@@'), ('·', '‖', '§§'), ('p', 's', 'w')]
+
+
+def rand_probability(rng):
+    """a float in [0,1]: the extremes, dyadic and decimal fractions, uniform draws, values next to the extremes"""
+    k = rng.randint(0, 9)
+    if k == 0:
+        return 0.0
+    if k == 1:
+        return 1.0
+    if k == 2:
+        return rng.randint(0, 8) / 8.0
+    if k == 3:
+        return rng.randint(0, 100) / 100.0
+    if k == 4:
+        return rng.choice([5e-324, 1e-12, 1e-3, 1 - 1e-3, 1 - 2.0 ** -53, 2.0 ** -53])
+    return rng.random()
+
+
 def baseline_oracle_case(rng, text_units, seed, family):
-    fam = rng.choice(['ascii', 'ipa'])
-    sep = rng.choice([(' ', ';esyll', ';eword'), ('_', None, ';eword')])
-    level = 'phone' if sep[1] is None else rng.choice(['phone', 'syllable'])
+    fam = rng.choice(['ascii', 'ipa', 'multi'])
+    sep = rng.choice(ORACLE_SEPS)
+    level = 'phone' if sep[1] is None else 'syllable' if sep[0] is None else rng.choice(['phone', 'syllable', 'syllable'])
     trees = [sl.rand_tree(rng, sl.PHONES[fam]) for _ in range(rng.randint(1, 4))]
+    if not all(sl.tree_ok(t, sep) for t in trees):
+        trees = [sl.rand_tree(rng, sl.PHONES['ascii']) for _ in range(rng.randint(1, 4))]
     otext = [sl.render(t, sep, 'padded' if sep[0] == ' ' else 'compact') for t in trees]
     text = gens.lines(text_units)
     ntok = sum(len(l.strip().split(' ')) for l in text)
@@ -225,22 +263,41 @@ def main():
         # TP: all six modes on small texts, one random mode otherwise
         modes = [(a, b) for a in range(2) for b in range(3)] if fam.startswith(('exhaustive', 'degenerate')) else [(rng.randint(0, 1), rng.randint(0, 2))]
         for ti, di in modes:
-            tr = rng.choice([None, None, tu, gens.random_text(rng, ['a', 'b', 'U'])[0]])
+            k = rng.randint(0, 5)
+            alpha = sorted({u for us in tu for u in us})
+            if k <= 1:
+                tr = None
+            elif k == 2:
+                tr = tu
+            elif k == 3:
+                tr = gens.random_text(rng, ['a', 'b', 'U'])[0]
+            elif k == 4:
+                # same alphabet as the text: the test bigrams are partly seen, partly unseen in training
+                tr = gens.random_text(rng, alpha)[0]
+            else:
+                # partial overlap: a subset of the text's alphabet plus foreign units
+                tr = gens.random_text(rng, rng.sample(alpha, rng.randint(1, len(alpha))) + rng.sample(['a', 'q', 'ʌ', 'xy'], rng.randint(0, 2)))[0]
+            ck.count('tp_train:' + ['none', 'none', 'same_text', 'abU', 'same_alphabet', 'overlapping_alphabet'][k])
             cases.append(tp_case(tu, tr, ti, di, fam))
         # PUDDLE
         n = len(tu)
         for _ in range(2):
-            window = rng.choice([1, 2, 2, 3, 4])
+            longest = max(len(us) for us in tu)
+            window = rng.choice([1, 2, 2, 3, 4, 5, 8, longest, longest + 1, longest + rng.randint(2, 30)])
+            ck.count('puddle_window:' + ('>longest_utterance' if window > longest else '>=5' if window >= 5 else str(window)))
             byfreq = rng.random() < 0.5
             if rng.random() < 0.3:
                 cases.append(puddle_case(tu, gens.random_text(rng, sorted({u for us in tu for u in us}) or ['a'])[0], window, byfreq, 5, fam))
             else:
                 cases.append(puddle_case(tu, None, window, byfreq, rng.randint(1, n), fam))
         # baseline
-        p = rng.choice([0.0, 1.0, 0.5, 0.3, 0.25, 0.9])
-        cases.append(baseline_case(tu, p, rng.randint(0, 10**6), fam))
-        if rng.random() < 0.15:
-            cases.append(baseline_oracle_case(rng, tu, rng.randint(0, 10**6), fam))
+        p = rand_probability(rng)
+        cases.append(baseline_case(tu, p, rng.choice([0, 1, 2**32 - 1, 2**64 + 5, rng.randint(0, 10**6), rng.randint(0, 10**6)]), fam))
+        if rng.random() < 0.3:
+            c = baseline_oracle_case(rng, tu, rng.randint(0, 10**6), fam)
+            ck.count('oracle_level:' + c['desc']['level'])
+            ck.count('oracle_sep:' + repr(c['desc']['sep']))
+            cases.append(c)
     # DiBS
     for k in range(250 * scale):
         c = dibs_case(rng, 'dibs-trees')
@@ -259,9 +316,10 @@ def main():
     finish_proof_failures(ck, failures + problems)
     return ck.finish(
         rule='texts: exhaustive over {a,b} and {U,B} (small scope), degenerate shapes, random planted-lexicon corpora over ascii/prefixy/ipa/marker/wide alphabets; '
-             'each through TP (2 thresholds x 3 dependencies x optional training text), PUDDLE (window 1-4 x by_frequency x nfolds 1..len or a training text), '
-             'baseline (p in {0, .25, .3, .5, .9, 1} with the seeded stream re-drawn for the model, and oracle mode), plus DiBS on tagged training trees '
-             '(3 types x thresholds x pwb x level). Oracle: one output per input utterance, each the input units with spaces at unit boundaries only. '
+             'each through TP (2 thresholds x 3 dependencies x optional training text), PUDDLE (window 1-8, the longest utterance and beyond x by_frequency x nfolds 1..len or a training text), '
+             'TP training text: none / the text / over {a,b,U} / over the text\'s alphabet / over an overlapping alphabet; '
+             'baseline (p: 0, 1, k/8, k/100, uniform draws, values next to 0 and 1, with the seeded stream re-drawn for the model, and oracle mode over 9 separator triples x phone/syllable level), '
+             'plus DiBS on tagged training trees (3 types x thresholds x pwb x level; test text from the training lexicon, with unseen words, or over unseen units only). Oracle: one output per input utterance, each the input units with spaces at unit boundaries only. '
              'Non-trivial = a boundary placed or an error.')
 
 
